@@ -40,8 +40,9 @@ type Run struct {
 	curOp        Op           // the step being executed
 	sentTomb     map[int]bool // collections that currently hold the sentinel tombstone
 	DropHappened bool
-	SharedKeyOps int  // steps whose key existed in >= 2 collections in different states
-	IsoProbes    bool // C11: compare query/view/ddoc probes of other collections after each step
+	Ghosts       []ghost // data store objects of dropped collections, kept to be used after the drop
+	SharedKeyOps int     // steps whose key existed in >= 2 collections in different states
+	IsoProbes    bool    // C11: compare query/view/ddoc probes of other collections after each step
 	probes       map[int]string
 	Twin         *World // C11: a second bucket with the same collection and key names; must never change
 	twinState    map[string]St
@@ -559,6 +560,7 @@ func (r *Run) ReopenStep() {
 		r.Poisoned = true
 		return
 	}
+	r.Ghosts = nil // (their handles are closed)
 	r.Trace = append(r.Trace, StepTrace{Op: Op{K: "Reopen"}, Outcome: "reopened"})
 	r.frame(-1, "", "close+reopen")
 }
